@@ -1,5 +1,6 @@
 """Rule outcomes, known findings, evidence and exit codes."""
 import json
+import ast
 import os
 import pathlib
 import time
@@ -127,12 +128,49 @@ class Checker:
         if len(cons) > 300:
             cons = cons[:300]
         where = public_qual(where)
-        f = Finding(rule or log.rule, where, cons, message, line=line, path=path,
-                    expected=None if expected is None else str(expected), found=None if found is None else str(found))
-        # de-duplicate
-        if f.key() not in [g.key() for g in log.findings]:
-            log.findings.append(f)
+        f = None
+        for w_, c_ in self._attribute_to_owners(where, cons):
+            f = Finding(rule or log.rule, w_, c_, message, line=line, path=path,
+                        expected=None if expected is None else str(expected), found=None if found is None else str(found))
+            # de-duplicate
+            if f.key() not in [g.key() for g in log.findings]:
+                log.findings.append(f)
         return f
+
+    def _owners(self, where, depth=3):
+        """a private helper (module-level function or method whose name starts with one underscore) belongs to the public functions
+        that reach it: a finding inside it is keyed by them, so that extracting a helper does not turn a listed finding into a new one"""
+        mod, _, rest = where.partition("::")
+        short = rest.split(".")[-1]
+        if not (short.startswith("_") and not short.startswith("__")) or depth == 0:
+            return [where]
+        try:
+            fn = self.repo.func(where)
+        except Exception:
+            return [where]
+        owners = []
+        for q2, fn2 in self.repo.all_functions():
+            pq = public_qual(q2)
+            if pq == where:
+                continue
+            for c in ast.walk(fn2):
+                if isinstance(c, ast.Call) and ((isinstance(c.func, ast.Name) and c.func.id == short) or (isinstance(c.func, ast.Attribute) and c.func.attr == short)):
+                    if pq not in owners:
+                        owners.append(pq)
+                    break
+        out = []
+        for o in owners:
+            for oo in self._owners(o, depth - 1):
+                if oo not in out:
+                    out.append(oo)
+        return sorted(out) or [where]
+
+    def _attribute_to_owners(self, where, cons):
+        owners = self._owners(where)
+        if owners == [where]:
+            return [(where, cons)]
+        short = where.partition("::")[2]
+        return [(o, cons.replace(short, o.partition("::")[2]) if short and short in cons else cons) for o in owners]
 
     def unknown(self, message):
         self.current.unknowns.append(message)
